@@ -103,6 +103,27 @@ def random_histories(count, rng, maxlen=40, mask=7):
     return cases
 
 
+def tx_blocks(count, rng, mask=7):
+    """several transactional calls composed in ONE atomic block on small WF maps (an operation must see the
+    earlier writes of its own transaction)"""
+    cases = []
+    maps = {n: list(gens.wf_maps2(n, with_unused=False)) for n in (2, 3, 4)}
+    for k in range(count):
+        n = rng.choice((2, 3, 3, 4, 4))
+        b0, b1, b2, u = rng.choice(maps[n])
+        in_use = list(range(1, n + 1))
+        lines = [gens.load_line(2, n, mask, [b0, b1, b2], u)] + gens.value_lines(rng, n, mask, pv=0.9, pa=0.5)
+        lines.append("tx")
+        for _ in range(rng.randint(2, 4)):
+            op = gens.random_op2(rng, n, in_use, force_p=0.0)
+            while op.split()[0] in ("rm", "ins", "add"):
+                op = gens.random_op2(rng, n, in_use, force_p=0.0)
+            lines.append(op)
+        lines += ["endtx", "snap", "wf"]
+        cases.append(Case(f"txb{k}", lines, oracle="wf", meta={"sig": "tx-block"}))
+    return cases
+
+
 def malformed(count, rng, mask=7):
     """null / removed / out-of-range arguments: correspondence only (WF may legitimately break)"""
     cases = []
@@ -132,6 +153,7 @@ def run(tier, seed):
         r1["stats"]["exhaustive"] = True
         parts.append(("exhaustive n<=3 (+4% sample of n=4)", r1))
         parts.append(("random histories", hv.campaign(random_histories(1500, rng), oracle_wf)))
+        parts.append(("transaction blocks", hv.campaign(tx_blocks(6000, rng), oracle_wf)))
         parts.append(("malformed", hv.campaign(malformed(1500, rng), None)))
     else:
         ex = exhaustive(4, rng)
@@ -140,6 +162,7 @@ def run(tier, seed):
         parts.append(("exhaustive n<=4", r1))
         parts.append(("exhaustive n=5 (2% sample)", hv.campaign(exhaustive_only(5, rng, 0.02), oracle_wf)))
         parts.append(("random histories", hv.campaign(random_histories(20000, rng, maxlen=60), oracle_wf)))
+        parts.append(("transaction blocks", hv.campaign(tx_blocks(80000, rng), oracle_wf)))
         parts.append(("malformed", hv.campaign(malformed(20000, rng), None)))
     return hv.merge_results(parts)
 
